@@ -71,3 +71,40 @@ package blockchain
 //@   assigns calls_BackendRevertHead, calls_Reset
 //@   ensures delegated: calls_BackendRevertHead == old(calls_BackendRevertHead) + 1
 //@   ensures cache_dropped: result == nil ==> calls_Reset == old(calls_Reset) + 1
+
+// ---- storing a block is the state back-end's transaction and nothing else (C05) -------------------
+// Every index of a stored block is written inside the back-end's transaction (statebackend
+// contracts); Blockchain.Store / Finalise add no write of their own, before or after it.
+//@ ghost var backendStoreErr error
+//@ extern func github.com/NethermindEth/juno/blockchain/statebackend.StateBackend.Store
+//@   logged as BackendStore
+//@   sets backendStoreErr = result
+//@ extern func github.com/NethermindEth/juno/blockchain/statebackend.StateBackend.Finalise
+//@   logged as BackendFinalise
+//@   sets backendStoreErr = result
+//@ extern func github.com/NethermindEth/juno/core.WriteL1HandlerMsgHashes
+//@   logged as WriteL1Msgs
+//@ extern func github.com/NethermindEth/juno/core.WriteBlockHeader
+//@   logged as WriteBlockHeader
+//@ extern func github.com/NethermindEth/juno/core.WriteTransactionsAndReceipts
+//@   logged as WriteTxs
+//@ extern func github.com/NethermindEth/juno/core.WriteStateUpdateByBlockNum
+//@   logged as WriteStateUpdate
+//@ extern func github.com/NethermindEth/juno/core.WriteBlockCommitment
+//@   logged as WriteCommitment
+//@ extern func github.com/NethermindEth/juno/core.WriteChainHeight
+//@   logged as WriteChainHeight
+//@ func (*Blockchain).Store
+//@   props C05
+//@   arith int
+//@   requires b != nil && b.stateBackend != nil
+//@   assigns backendStoreErr, calls_BackendStore, arg_BackendStore_block, arg_BackendStore_commitments, arg_BackendStore_stateUpdate, arg_BackendStore_newClasses
+//@   ensures one_transaction: calls_BackendStore == old(calls_BackendStore) + 1 && result == backendStoreErr && arg_BackendStore_block == block && arg_BackendStore_stateUpdate == stateUpdate
+//@   ensures nothing_outside_it: calls_WriteL1Msgs == old(calls_WriteL1Msgs) && calls_WriteBlockHeader == old(calls_WriteBlockHeader) && calls_WriteTxs == old(calls_WriteTxs) && calls_WriteStateUpdate == old(calls_WriteStateUpdate) && calls_WriteCommitment == old(calls_WriteCommitment) && calls_WriteChainHeight == old(calls_WriteChainHeight)
+//@ func (*Blockchain).Finalise
+//@   props C05
+//@   arith int
+//@   requires b != nil && b.stateBackend != nil
+//@   assigns backendStoreErr, calls_BackendFinalise, arg_BackendFinalise_block, arg_BackendFinalise_stateUpdate, arg_BackendFinalise_newClasses, arg_BackendFinalise_sign
+//@   ensures one_transaction: calls_BackendFinalise == old(calls_BackendFinalise) + 1 && result == backendStoreErr
+//@   ensures nothing_outside_it: calls_WriteL1Msgs == old(calls_WriteL1Msgs) && calls_WriteBlockHeader == old(calls_WriteBlockHeader) && calls_WriteTxs == old(calls_WriteTxs) && calls_WriteStateUpdate == old(calls_WriteStateUpdate) && calls_WriteCommitment == old(calls_WriteCommitment) && calls_WriteChainHeight == old(calls_WriteChainHeight)
